@@ -74,7 +74,10 @@ def t_reads(eng):
     stored = media_dependent_writes(cg, F)
     leak = {a: w[:3] for a, w in stored.items() if a in reads}
     eng.oblige(n + 'nothing-stored-from-the-media-is-read-by-the-current-computation', not leak, detail=str(leak))
-    eng.oblige(n + 'media-dependent-writers-found', 'boundary' in stored and 'far_field' in stored, detail=str(sorted(stored)))
+    if not ('boundary' in stored and 'far_field' in stored):
+        from pyvc.source import Unresolved
+        raise Unresolved('media-dependent writers (boundary, far_field) not where the contract expects them: %s' % sorted(stored))
+    eng.oblige(n + 'media-dependent-writers-found', True, detail=str(sorted(stored)))
     eng.cover('reads')
 
 
@@ -256,7 +259,17 @@ def t_reflection_point(eng):
     pv.fields['point'] = NDArr([[px, py, pz]])
     rvrp = NDArr([[[CX(0, 0), CX(0, 0), CX(cz, r_neg(sz))]]])
     acs = NDArr([CX(ca, r_neg(sa))])
-    env = {'self': m, 'rvrp': rvrp, 'pv': pv, 'acs': acs, 'a_i': 0}
+    env = {'self': m, 'rvrp': rvrp, 'pv': pv, 'acs': acs}
+    # the slice lies in the body of `for <index>, <element> in enumerate (acs)`: both loop variables are bound (first azimuth),
+    # whichever of them the statements use
+    hdr = [x for x in ast.walk(f) if isinstance(x, ast.For) and ast.unparse(x.iter).replace(' ', '') == 'enumerate(acs)'
+           and any(st in ast.walk(x) for st in stmts[:1])]
+    if len(hdr) != 1 or not isinstance(hdr[0].target, ast.Tuple) or len(hdr[0].target.elts) != 2 \
+            or not all(isinstance(t, ast.Name) for t in hdr[0].target.elts):
+        from pyvc.source import Unresolved
+        raise Unresolved('enclosing loop `for i, x in enumerate (acs)` of the reflection-point statements')
+    env[hdr[0].target.elts[0].id] = 0
+    env[hdr[0].target.elts[1].id] = acs.data[0]
     eng.frames.append({'fref': eng.fref(Q), 'env': env, 'qual': Q, 'node': f})
     try:
         eng.exec_block(stmts, env)
@@ -448,6 +461,26 @@ U_LOOKUP_LEMMA = Unit(P + '/lemma-medium-lookup', [], t_lookup_lemmas, SCHEMA, k
 
 
 # ---------------------------------------------------------------- radial screen and Fresnel coefficients
+def prepend_definitions(f, stmts, env, known=('np', 'len', 'range', 'abs', 'int', 'float', 'complex', 'max', 'min', 'list', 'tuple')):
+    """a slice may use a local that the function defines before it (`n = len (self.media) - 1`): every free name of the slice that
+    has exactly ONE plain assignment earlier in the function, whose own free names are available, is defined by executing that
+    assignment first.  Returns the statements to put in front (in source order)."""
+    stored = set(t.id for st in stmts for t in ast.walk(st) if isinstance(t, ast.Name) and isinstance(t.ctx, ast.Store))
+    loaded = set(t.id for st in stmts for t in ast.walk(st) if isinstance(t, ast.Name) and isinstance(t.ctx, ast.Load))
+    free = loaded - stored - set(env) - set(known)
+    first = min(getattr(st, 'lineno', 10 ** 9) for st in stmts)
+    out = []
+    for name in sorted(free):
+        cands = [x for x in ast.walk(f) if isinstance(x, ast.Assign) and len(x.targets) == 1 and isinstance(x.targets[0], ast.Name)
+                 and x.targets[0].id == name and x.lineno < first]
+        if len(cands) != 1:
+            continue
+        need = set(t.id for t in ast.walk(cands[0].value) if isinstance(t, ast.Name)) - set(env) - set(known)
+        if not need:
+            out.append(cands[0])
+    return sorted(out, key=lambda x: x.lineno)
+
+
 def t_fresnel(eng):
     """slice of compute_far_field: from `if nr != 0:` (radial screen) to `h89 = s89 / t89 - v89`, 1x1 arrays.
     Contract (Z the surface impedance used, c - j s the direction's rt3, w = sqrt(1 - Z^2 s^2), Re w >= 0):
@@ -477,8 +510,12 @@ def t_fresnel(eng):
     eng.assume(r_cmp('>', wv, 0))
     m = SObj('Mininec', label='m')
     m.fields['w'] = wv
+    # two or three media (the looked-up medium j2 is the first or the second of them)
+    nmedia = 2 + eng.choose(2)
+    m.fields['media'] = SList([('conc', [SObj('Medium', label='med%d' % k) for k in range(nmedia)])])
     env = {'self': m, 'nr': nr, 'rr': rr, 'b9': NDArr([[b9]]), 'j2': NDArr([[0 if first else 1]]),
            'z45': NDArr([[Z]]), 'rt3': NDArr([[CX(cz, r_neg(sz))]])}
+    stmts = prepend_definitions(f, stmts, env) + stmts
     eng.frames.append({'fref': eng.fref(Q), 'env': env, 'qual': Q, 'node': f})
     try:
         try:
@@ -491,7 +528,7 @@ def t_fresnel(eng):
     finally:
         eng.frames.pop()
     screen = eng.decide(r_cmp('!=', nr, 0))
-    eng.cover('fresnel-perfect-%d-first-%d-screen-%d' % (perfect, first, screen))
+    eng.cover('fresnel-perfect-%d-first-%d-screen-%d-media-%d' % (perfect, first, screen, nmedia))
     g = lambda a: to_cx(a.data[0][0])
     zu, w, v, h = g(env['z45']), g(env['w671']), g(env['v89']), g(env['h89'])
     c, s_ = CX(cz, 0), CX(sz, 0)
